@@ -74,6 +74,7 @@ type PKI struct {
 	Intermediate              *Pair // CA-signed intermediate whose CN is the rule's name
 	Dir                       string
 	CAFile, CertFile, KeyFile string
+	ForeignCAFile             string // the certificate of a CA the server is NOT configured with (for rotation scenarios)
 	CommonName                string // the name a CN rule asks for
 }
 
@@ -91,7 +92,8 @@ func New(dir string, commonName string) (*PKI, error) {
 	p.CAFile = filepath.Join(dir, "ca.pem")
 	p.CertFile = filepath.Join(dir, "server.pem")
 	p.KeyFile = filepath.Join(dir, "server.key")
-	for f, b := range map[string][]byte{p.CAFile: p.CA.CertPEM(), p.CertFile: p.Server.CertPEM(), p.KeyFile: p.Server.KeyPEM()} {
+	p.ForeignCAFile = filepath.Join(dir, "foreign-ca.pem")
+	for f, b := range map[string][]byte{p.ForeignCAFile: p.ForeignCA.CertPEM(), p.CAFile: p.CA.CertPEM(), p.CertFile: p.Server.CertPEM(), p.KeyFile: p.Server.KeyPEM()} {
 		if err := os.WriteFile(f, b, 0o600); err != nil {
 			return nil, err
 		}
